@@ -95,6 +95,9 @@ class Whole(Unit):
         checks = [("must-raise", must_raise)]
         checks += slice_checks(S, vin, vo, t, n, 1, dt)
         checks += data_checks(S, vin, vo, t, n, 1)
+        if vin.t0 is not None and vo.t0 is not None:
+            # (slice_checks leaves the start time of an EMPTY slice open; a snippet of n = 0 samples still starts at t)
+            checks.append(("start_time-of-empty-snippet", z3.And(n == 0, neq(S, vo.t0, vin.t0 + z3.ToReal(t) * dt, 1e-7))))
         return checks
 
     def witness_constraints(self, ctx):
